@@ -55,6 +55,17 @@ Theorem C10_final_flush : forall cb0 inb nc scr ups sched i,
 Proof. exact final_flush. Qed.
 Print Assumptions C10_final_flush.
 
+(* readers blocked in readMore are woken: once the state has left `opened` (by the peer's notification, by
+   close(), or by the local half-close of a Close() issued while a callback runs — that one since 24acf5f)
+   closeNotifyCh is closed as soon as no thread stands between its state transition and its report *)
+Theorem C10_wake : forall cb0 inb nc scr ups sched,
+  let s := run sched (init cb0 inb nc scr ups) in
+  st s <> c_streamOpened ->
+  epc s <> EHalfN -> cz c_pendcb (clos s) = 0 -> cz (gl c_pendcb) (gors s) = 0 ->
+  cnotify s = true.
+Proof. exact wake. Qed.
+Print Assumptions C10_wake.
+
 (* peer side: once a close notification has been taken from the inbox and its CAS executed, Flush fails and
    reads return the buffered data and then end-of-stream *)
 Theorem C10_peer : forall cb0 inb nc scr ups sched,
